@@ -148,6 +148,11 @@ def boundary_protos():
     out.append(dict(args=['p'] + ['d'] * 9 + ['i64'] * 7 + ['ld'], nfixed=1, vararg=True, res=['d']))
     out.append(dict(args=['rblk:24', 'i64'], nfixed=2, vararg=False, res=[]))
     out.append(dict(args=[], nfixed=0, vararg=False, res=['i8', 'd', 'ld', 'u32', 'ld', 'f']))
+    # far beyond the register files (and beyond the interpreter's initial 64-element per-call arrays)
+    out.append(dict(args=['i64'] * 70, nfixed=70, vararg=False, res=['i64']))
+    out.append(dict(args=['i64', 'd'] * 45, nfixed=90, vararg=False, res=['i64', 'd']))
+    out.append(dict(args=['u8', 'f', 'i16', 'd', 'u32', 'ld'] * 11, nfixed=66, vararg=False, res=['u16', 'ld']))
+    out.append(dict(args=['p'] + ['i64', 'd'] * 35, nfixed=1, vararg=True, res=['i32']))
     for p in out:
         p['style'] = 'boundary'
     return out
@@ -160,6 +165,20 @@ def session_seeds():
         out.append(dict(args=[b, 'i64', 'd'], nfixed=3, vararg=False, res=['i64'], style='session'))
         out.append(dict(args=['i32', b, 'f', 'u8'], nfixed=4, vararg=False, res=['u32', 'f'], style='session'))
     out.append(dict(args=['p', 'i64', 'd'], nfixed=1, vararg=True, res=['i32'], style='session'))
+    # the same arguments, results that differ only after the first one (per-signature trampoline cache)
+    for r in (['i64', 'd'], ['d', 'i64'], ['i64', 'i64', 'd'], ['u8', 'f', 'i64']):
+        out.append(dict(args=['i64', 'd'], nfixed=2, vararg=False, res=r, style='session'))
+    return out
+
+
+def result_class_sessions():
+    """call sequences through prototypes that agree in everything but the class of a result after the first one"""
+    out = []
+    for ra, rb in ((['i64', 'd'], ['i64', 'i64']), (['d', 'i64'], ['d', 'd']), (['u8', 'f', 'i64'], ['u8', 'i64', 'f']),
+                   (['i64', 'i64', 'd', 'd'], ['i64', 'd', 'i64', 'd'])):
+        mk = lambda r: dict(args=['i64', 'd'], nfixed=2, vararg=False, res=list(r), style='session')
+        out.append([mk(ra), mk(rb), mk(ra)])
+        out.append([mk(rb), mk(ra)])
     return out
 
 
@@ -306,6 +325,8 @@ def related_proto(rng, p):
         kinds += ['argtype', 'swap', 'drop']
     if q['res']:
         kinds += ['restype']
+    if len(q['res']) >= 2 and 'ld' not in q['res']:
+        kinds += ['resclass'] * 2
     if q['vararg'] and q['args']:
         kinds += ['nfixed']
     if not kinds:
@@ -357,6 +378,14 @@ def related_proto(rng, p):
             q['res'][idx] = rng.choice([t for t in ITYS if t != r])
         elif r in ('f', 'd'):
             q['res'][idx] = 'd' if r == 'f' else 'f'
+    elif k == 'resclass':
+        # a result other than the first one changes its register class (when the combination stays legal)
+        idx = rng.randrange(1, len(q['res']))
+        r = q['res'][idx]
+        nr = rng.choice(['d', 'f']) if r in ITYS else rng.choice(['i64', 'u8', 'i32'])
+        cand = q['res'][:idx] + [nr] + q['res'][idx + 1:]
+        if sum(1 for x in cand if x in ITYS) <= 2 and sum(1 for x in cand if x in ('f', 'd')) <= 2:
+            q['res'] = cand
     elif k == 'nfixed':
         q['nfixed'] = rng.randint(0, len(q['args']))
         for i in range(q['nfixed'], len(q['args'])):
